@@ -160,14 +160,33 @@ pub enum BuilderCall {
     WithoutQualifier(String),
     WithoutQualifiers,
     WithPackageType(String),
+    /// `with_typed_qualifier(Some(RepositoryUrl / DownloadUrl / VcsUrl / FileName))`, by index.
+    WithTypedQualifier(u8, String),
+    /// `with_typed_qualifier(None::<...>)`, by index.
+    WithoutTypedQualifier(u8),
+    /// `try_with_typed_qualifier(Some(Checksum))` filled with `insert_raw(alg, hex)` for each pair.
+    TryWithChecksum(Vec<(String, String)>),
+    /// `try_with_typed_qualifier(None::<Checksum>)`.
+    WithoutChecksum,
+    /// Direct edit of the public field `parts.name` / `namespace` / `version` / `subpath`, by index.
+    DirectEdit(u8, String),
+    /// Direct edit of the public field `package_type`.
+    DirectRetype(String),
 }
 
 #[derive(Clone, Debug, PartialEq, Eq, Serialize, Deserialize)]
 pub enum Workload {
     /// `GenericPurl::<SimShape>::from_str(input)`.
     Parse { input: String },
-    /// `GenericPurlBuilder::new(SimShape{ty}, name)`, the calls, `build()`.
-    Build { ty: String, name: String, calls: Vec<BuilderCall> },
+    /// `GenericPurlBuilder::new(SimShape{ty}, name)`, the calls, `build()`. With `clone_first` a clone
+    /// of the builder is built (and judged) first, then the original: one hook call per `build()`.
+    Build {
+        ty: String,
+        name: String,
+        calls: Vec<BuilderCall>,
+        #[serde(default)]
+        clone_first: bool,
+    },
     /// `GenericPurl::new(SimShape{ty}, name)`.
     New { ty: String, name: String },
     /// Parse `input` under the all-succeed script, then `into_builder()`, the calls (usually none),
@@ -764,6 +783,47 @@ fn apply_calls(mut b: GenericPurlBuilder<SimShape>, calls: &[BuilderCall]) -> Op
             BuilderCall::WithoutQualifier(k) => b.without_qualifier(k.as_str()),
             BuilderCall::WithoutQualifiers => b.without_qualifiers(),
             BuilderCall::WithPackageType(t) => b.with_package_type(SimShape { ty: t.clone() }),
+            BuilderCall::WithTypedQualifier(which, v) => {
+                use purl::qualifiers::well_known::{DownloadUrl, FileName, RepositoryUrl, VcsUrl};
+                match which % 4 {
+                    0 => b.with_typed_qualifier(Some(RepositoryUrl::from(v.as_str()))),
+                    1 => b.with_typed_qualifier(Some(DownloadUrl::from(v.as_str()))),
+                    2 => b.with_typed_qualifier(Some(VcsUrl::from(v.as_str()))),
+                    _ => b.with_typed_qualifier(Some(FileName::from(v.as_str()))),
+                }
+            },
+            BuilderCall::WithoutTypedQualifier(which) => {
+                use purl::qualifiers::well_known::{DownloadUrl, FileName, RepositoryUrl, VcsUrl};
+                match which % 4 {
+                    0 => b.with_typed_qualifier(None::<RepositoryUrl>),
+                    1 => b.with_typed_qualifier(None::<DownloadUrl>),
+                    2 => b.with_typed_qualifier(None::<VcsUrl>),
+                    _ => b.with_typed_qualifier(None::<FileName>),
+                }
+            },
+            BuilderCall::TryWithChecksum(pairs) => {
+                let mut c = purl::qualifiers::well_known::Checksum::default();
+                for (alg, hex) in pairs {
+                    c.insert_raw(alg, hex.clone());
+                }
+                b.try_with_typed_qualifier(Some(c)).ok()?
+            },
+            BuilderCall::WithoutChecksum => b.try_with_typed_qualifier(None::<purl::qualifiers::well_known::Checksum>).ok()?,
+            BuilderCall::DirectEdit(which, v) => {
+                let mut b = b;
+                match which % 4 {
+                    0 => b.parts.name = v.as_str().into(),
+                    1 => b.parts.namespace = v.as_str().into(),
+                    2 => b.parts.version = v.as_str().into(),
+                    _ => b.parts.subpath = v.as_str().into(),
+                }
+                b
+            },
+            BuilderCall::DirectRetype(t) => {
+                let mut b = b;
+                b.package_type = SimShape { ty: t.clone() };
+                b
+            },
         };
     }
     Some(b)
@@ -794,7 +854,7 @@ impl C14 {
                 ctx_owned = format!("script {n} {script:?}, parse {input:?}");
                 (Kind::Parse, if reference.is_ok() { "parse_valid" } else { "parse_refused_by_generic" }, Some(input.as_str()), Some(reference.is_ok()), r)
             },
-            Workload::Build { ty, name, calls } => {
+            Workload::Build { ty, name, calls, clone_first } => {
                 install(script, token_base);
                 let Some(builder) = apply_calls(GenericPurlBuilder::new(SimShape { ty: ty.clone() }, name.as_str()), calls) else {
                     // A setter refused its argument; nothing was built and no callback may have run.
@@ -805,6 +865,14 @@ impl C14 {
                     stats.bump("workload.build_setter_refused");
                     return Ok(false);
                 };
+                if *clone_first {
+                    let copy = builder.clone();
+                    let r = guarded(move || copy.build()).map_err(|p| violation!("C14.panic_in_build", "script {n} {script:?}: build() of a cloned builder panicked: {p}"))?;
+                    let (events, _) = take_events();
+                    judge(Kind::Build, None, None, &events, &r, &format!("script {n} {script:?}, build of a clone of {ty:?}/{name:?} {calls:?}"))?;
+                    stats.bump("workload.build_of_clone");
+                    install(script, token_base + 500);
+                }
                 let r = guarded(move || builder.build()).map_err(|p| violation!("C14.panic_in_build", "script {n} {script:?}: build() panicked: {p}"))?;
                 ctx_owned = format!("script {n} {script:?}, build {ty:?}/{name:?} {calls:?}");
                 (Kind::Build, "build", None, None, r)
@@ -943,7 +1011,20 @@ fn write_action(rng: &mut Rng) -> HookAction {
 fn builder_calls(rng: &mut Rng) -> Vec<BuilderCall> {
     let n = rng.below(6);
     (0..n)
-        .map(|_| match rng.below(12) {
+        .map(|_| match rng.below(18) {
+            12 => BuilderCall::WithTypedQualifier(rng.below(4) as u8, if rng.chance(1, 6) { String::new() } else { gen::component(rng, true) }),
+            13 => BuilderCall::WithoutTypedQualifier(rng.below(4) as u8),
+            14 => {
+                let n = rng.range(1, 3);
+                BuilderCall::TryWithChecksum(
+                    (0..n)
+                        .map(|_| ((*rng.pick(&["sha1", "SHA256", "md5", "a:b", "é"])).to_owned(), (*rng.pick(&["", "00", "AbCd", "0", "zz"])).to_owned()))
+                        .collect(),
+                )
+            },
+            15 => BuilderCall::WithoutChecksum,
+            16 => BuilderCall::DirectEdit(rng.below(4) as u8, if rng.chance(1, 5) { String::new() } else { gen::component(rng, true) }),
+            17 => BuilderCall::DirectRetype(gen::type_string(rng, false).to_ascii_lowercase()),
             0 => BuilderCall::WithNamespace(gen::component(rng, true)),
             1 => BuilderCall::WithoutNamespace,
             2 => BuilderCall::WithName(if rng.chance(1, 5) { String::new() } else { gen::component(rng, true) }),
@@ -981,6 +1062,7 @@ impl Sim for C14 {
                 ty: gen::type_string(&mut rng, false).to_ascii_lowercase(),
                 name: if rng.chance(1, 8) { String::new() } else { gen::component(&mut rng, true) },
                 calls: builder_calls(&mut rng),
+                clone_first: rng.chance(1, 4),
             },
             8 => Workload::New {
                 ty: gen::type_string(&mut rng, false).to_ascii_lowercase(),
@@ -1087,17 +1169,20 @@ impl Sim for C14 {
                     out.push(Scenario { workload: mk(shorter), scripts: sc.scripts.clone() });
                 }
             },
-            Workload::Build { ty, name, calls } => {
+            Workload::Build { ty, name, calls, clone_first } => {
+                if *clone_first {
+                    out.push(Scenario { workload: Workload::Build { ty: ty.clone(), name: name.clone(), calls: calls.clone(), clone_first: false }, scripts: sc.scripts.clone() });
+                }
                 for i in 0..calls.len() {
                     let mut c = calls.clone();
                     c.remove(i);
-                    out.push(Scenario { workload: Workload::Build { ty: ty.clone(), name: name.clone(), calls: c }, scripts: sc.scripts.clone() });
+                    out.push(Scenario { workload: Workload::Build { ty: ty.clone(), name: name.clone(), calls: c, clone_first: *clone_first }, scripts: sc.scripts.clone() });
                 }
-                if calls.is_empty() {
+                if calls.is_empty() && !*clone_first {
                     out.push(Scenario { workload: Workload::New { ty: ty.clone(), name: name.clone() }, scripts: sc.scripts.clone() });
                 }
                 if name != "n" && !name.is_empty() {
-                    out.push(Scenario { workload: Workload::Build { ty: ty.clone(), name: "n".into(), calls: calls.clone() }, scripts: sc.scripts.clone() });
+                    out.push(Scenario { workload: Workload::Build { ty: ty.clone(), name: "n".into(), calls: calls.clone(), clone_first: *clone_first }, scripts: sc.scripts.clone() });
                 }
             },
             Workload::New { ty, name } => {
